@@ -70,7 +70,9 @@ def run_case(case):
             m = vmeta.Meta.from_file(mf)
         except Exception as e:
             return Outcome(Violation("C04:setup-exception:%s" % type(e).__name__, "creating the metafile raised %r" % (e,)), False)
-        changed = rk.apply_damage(root, case["tree"], case["damage"])
+        if case.get("prime"):
+            rk.tool_recheck(mf, root if case["content_path"] == "root" else parent)     # first use, on the intact payload
+        changed = rk.apply_damage(root, case["tree"], case["damage"], keep_mtime=bool(case.get("prime")))
         if not changed:
             return Outcome(None, False, ["no-effective-damage"])
         ref = refcheck.verify(m, root)
